@@ -12,1137 +12,962 @@ Definition show_fres (r : fres) : string :=
   end.
 Definition check (rs : list rune) : string := digest (show_fres (format_res rs)).
 Definition full (rs : list rune) : string := show_fres (format_res rs).
-Eval vm_compute in ("<<<M1334>>>" ++ check (runes_of_ascii "// top
-options
-    // c0
-{ // c1
-LittleEndian // c2
-= false // c4
-; ArrayPrefixLenType =
-    // c7
-u8 ; FixedStringPadFromLeft // c10a
-  // c10b
-= // c11
-true // c12
-;
-    // c13
-FixedStringPadChar // c14
-= // c15
-'0' // c16
-; // c17
-}
-    // c18
-packet Heartbeat
-    // c20
-{ string // c22a
-  // c22b
-lastPx ,
-    // c24
-uint8 // c25a
-  // c25b
-Qty // c26a
-  // c26b
-,
-    // c27
-i64 Acct // c29
-, // c30a
-  // c30b
-char[ // c31
-4 // c32a
-  // c32b
-] Ref , // c35a
-  // c35b
-} // c36a
-  // c36b
-packet
-    // c37
-Fill // c38
-{ // c39a
-  // c39b
-uint8 // c40a
-  // c40b
-Ref , Heartbeat // c43
-, // c44a
-  // c44b
-f32 OrderId , // c47a
-  // c47b
-repeat f32 // c49
-x , // c51
-} root packet // c54a
-  // c54b
-Order // c55a
-  // c55b
-{ // c56a
-  // c56b
-zchar[ // c57a
-  // c57b
-2 // c58
-]
-    // c59
-OrderId // c60a
-  // c60b
-, zchar[
-    // c62
-2 // c63a
-  // c63b
-] // c64
-Acct // c65a
-  // c65b
-, zchar[ // c67
-1 // c68a
-  // c68b
-]
-    // c69
-Note // c70
-, // c71a
-  // c71b
-zchar[
-    // c72
-9 // c73
-] // c74a
-  // c74b
-Qty // c75a
-  // c75b
-, // c76
-string
-    // c77
-price ,
-    // c79
-string // c80
-tag7
-    // c81
-,
-    // c82
-u32 // c83
-x // c84
-,
-    // c85
-match // c86a
-  // c86b
-x // c87a
-  // c87b
-as
-    // c88
-Body {
-    // c90
-123 // c91
-: Fill
-    // c93
-, 112 // c95
-: Heartbeat // c97
-, } // c99a
-  // c99b
-, // c100a
-  // c100b
-u32 // c101a
-  // c101b
-seqNo // c102
-@calculatedFrom( // c103
-""CRC32"" // c104a
-  // c104b
-) // c105
-,
-    // c106
-} // c107a
-  // c107b
-")).
-Eval vm_compute in ("<<<M1338>>>" ++ check (runes_of_ascii "// top
-options
-    // c0
-{ ArrayPrefixLenType = // c3
-u64 // c4a
-  // c4b
-; FixedStringPadFromLeft // c6a
-  // c6b
-= true ; // c9
-FixedStringPadChar =
-    // c11
-'0' ; // c13
-} // c14
-packet // c15a
-  // c15b
-Quote // c16
-{ // c17a
-  // c17b
-}
-    // c18
-packet
-    // c19
-Ack // c20a
-  // c20b
-{
-    // c21
-repeat InNote66 { u8 pad0
-    // c26
-, // c27a
-  // c27b
-}
-    // c28
-, // c29
-}
-    // c30
-packet // c31a
-  // c31b
-Reject { // c33
-} // c34
-root // c35
-packet // c36
-Order { // c38
-Quote
-    // c39
-,
-    // c40
-repeat
-    // c41
-Reject
-    // c42
-,
-    // c43
-string venue , // c46a
-  // c46b
-string // c47a
-  // c47b
-seqNo
-    // c48
-,
-    // c49
-uint32 Ref // c51a
-  // c51b
-, // c52a
-  // c52b
-u16 lastPx
-    // c54
-, // c55
-u32
-    // c56
-clOrdID // c57
-@lengthOf( // c58
-Body ) ,
-    // c61
-match // c62a
-  // c62b
-lastPx as Body // c65
-{ // c66a
-  // c66b
-190 : Reject ,
-    // c70
-186 // c71
-: Quote // c73a
-  // c73b
-,
-    // c74
-22 // c75
-:
-    // c76
-Ack ,
-    // c78
-} // c79a
-  // c79b
-, // c80
-u16 // c81a
-  // c81b
-Flags // c82a
-  // c82b
-@calculatedFrom( ""CRC32"" ) ,
-    // c86
-} // c87a
-  // c87b
-")).
-Eval vm_compute in ("<<<M1329>>>" ++ check (runes_of_ascii "options {
-    FixedStringPadFromLeft = true;
-    FixedStringPadChar = '0';
-}
-packet Leg {
-    InPrice0 {
-        repeat string clOrdID,
-        int16 msgKind,
-        zchar[5] Px,
+Eval vm_compute in ("<<<M1443>>>" ++ check (runes_of_ascii "packet A {
+    @rightPad('0')
+    repeat i8i8 {
+        zchar[007] packetx,
+        metadata `" ++ [28040; 24687; 31867; 22411]%N ++ runes_of_ascii "`,
+        repeat float64 T,
     },
-    i16 f1,
-    repeat f64 Side2,
-    string Acct,
-}
-packet Cancel {
-    zchar[4] clOrdID,
-    string seqNo,
-    Leg,
-    @leftPad('0') char[11] OrderId,
-}
-packet Quote {
-    repeat char[4] sym,
-    f64 OrderId,
-    repeat Leg,
-    repeat i64 f1,
-    int16 Note,
-    zchar[3] count,
-}
-root packet Ack {
-    @leftPad(' ') char[10] sym,
-    InPx60 {
-        Cancel,
-        repeat char[1] f1,
-        string Tail,
-        repeat InNote55 {
-            int8 count,
-            f64 f1,
-            repeat Cancel,
-        },
-        char[] tag7,
-        repeat string msgKind,
-    },
-    u8 lastPx,
-    match lastPx as Body {
-        152 : Quote,
-        173 : Cancel,
-        4 : Leg,
-    },
-    u16 Ref @calculatedFrom(""CRC32""),
-}
-")).
-Eval vm_compute in ("<<<M1747>>>" ++ check (runes_of_ascii "packet u128 {
-    @rightPad(' ')
-    i64_ {
-        Logon,
-        char[4294967296] MetaDataX @calculatedFrom(""" ++ [28040; 24687]%N ++ runes_of_ascii """),
-    },
-    rootA {
-        zchar[1] rootA,
-        asx {
-            rootA @calculatedFrom(""abc""),
-            repeat uint16 x_y_z,
-            // packet A { u8 x, }
-            zchar[42] stringy,
-            body,
-        },
-    },
-    @leftPad('\x00')
-    char[3] Z9_ @lengthOf(roots) `" ++ [233]%N ++ runes_of_ascii "`,
-    @lengthOf(charz)
-    @leftPad('0')
-    @calculatedFrom(""a\""b"")
-    zchar[7] a1 @calculatedFrom(""\" ++ [233]%N ++ runes_of_ascii """) `// not a comment`,
-    @lengthOf(lengthOf)
-    repeat i16 chars,
-    int {
-        //	t
-        zchar[1] calculatedFrom `line1
+    @tag(0)
+    Z9_ {
+        int @lengthOf(tag) `line1
                 line2`,
-        Packet `" ++ [28040; 24687; 31867; 22411]%N ++ runes_of_ascii "`,
-    },// " ++ [128512]%N ++ runes_of_ascii " emoji
-    @rightPad('\x00')
-    zchar[255] repeatCount @calculatedFrom(""\" ++ [233]%N ++ runes_of_ascii """),
-    repeat char[] Pad `a\`,
-    @lengthOf(pack)
-    i8 int,
+        repeat i8i8 {
+            zchar[00] stringy,
+            repeat f32a {
+                match i64_ as string_ {
+                    [255, 0123456789, ""{,}""] : x_y_z,
+                    """ ++ [233]%N ++ runes_of_ascii "t" ++ [233]%N ++ runes_of_ascii """ : A,
+                    ""`tick`"" : len,
+                },
+            },
+            //
+            repeat u8x {
+                u16 Z9_ @calculatedFrom(""" ++ [128512]%N ++ runes_of_ascii """) `line1
+                                line2`,
+                f32 matchKey,
+            },// " ++ [27880; 37322]%N ++ runes_of_ascii "
+            float64 u8x `
+                        `,
+        },//
+    },// `tick` ""quote"" 'q'
+    a1 {
+        repeat zchar[007] Foo `two words`,
+        f32a @calculatedFrom(""" ++ [28040; 24687]%N ++ runes_of_ascii """),
+        int64 i64_ @calculatedFrom(""`tick`""),
+    },
+    @lengthOf(Header)
+    f32 stringy @calculatedFrom(""x y"") `say ""hi""`,
+    Foo,
+    float64 BodyLength @calculatedFrom(""packet""),
+    uint32 int,
+}
+
+packet string_ {
+    @tag(4294967296)
+    repeat u `two words`,
+    repeat zchar[0] BodyLength,
+    @tag(255)
+    /// triple
+    int `line1
+        line2`,
+    uint8x `it's`,
+    @tag(65535)
+    int8 metadata `" ++ [233]%N ++ runes_of_ascii "`,/// triple
+    match options1 as float {
+        3 : f32a,
+        """ ++ [28040; 24687]%N ++ runes_of_ascii """ : charz,
+    },
+    match uint8x as string_ {
+        ""CRC32"" : x,
+    },
+    uint8 packetx `crlf
+        line`,
+    @leftPad()
+    zchar[0] Foo `say ""hi""`,
 }")).
-Eval vm_compute in ("<<<M1670>>>" ++ check (runes_of_ascii "
+Eval vm_compute in ("<<<M1510>>>" ++ check (runes_of_ascii "root packet// " ++ [27880; 37322]%N ++ runes_of_ascii "
+	  crc
+	{	@lengthOf( As
 
-  root
-	packet
+) 
+@calculatedFrom(""\" ++ [233]%N ++ runes_of_ascii """
+    )zchar[
 
-    matchKey
+    4294967296] 
+MetaDataX
 
-    { match
+    `doc` , 	 /// triple
+	rootA@calculatedFrom( ""it's"" ),
+@tag(
+	65535 )
+@tag(// c
+  7 )@tag(  00 
+//
+  // c
+) 
+len @lengthOf( A )
+    `two words` ,  
+      // trailing space 
 
-Foo
-    as 
-Z9_ { 	 // c
-    [
-""x y"",
-""1""
+// " ++ [128512]%N ++ runes_of_ascii " emoji
+
+	string  rootA
+	@lengthOf(	pack 
+    // trailing space 
+  	//	t
+),
+    // " ++ [128512]%N ++ runes_of_ascii " emoji
+	// trailing space 
+	repeat zchar 
 ,
-    007 
-, 7 ] :
+	@calculatedFrom( ""abc""
 
-    pack
-,""`tick`""	:  u128 , 
-""a	b"" :
-    msg_type,
-[ 
-	    //
-    //
-  00
+    )@leftPad( '\x00' 
+) @rightPad
 
-    , 65535
+    ( )
+match 
+x_y_z
 
-    ]
-    : a1
+as
+	Z9_ {  ""it's""
+:Logon//x
     ,
-	""it's"" : 
-Foo , 	 // " ++ [128512]%N ++ runes_of_ascii " emoji
-[//x
-
-	""""	]
+	""x y"":	Packet  ,""abc""
 	:
 
-    u , 
+trueish 4294967296  // @lengthOf(
+	: repeatCount
+
+""" ++ [128512]%N ++ runes_of_ascii """
+:	x_y_z
 } ,
-}
-	packet
+	char[10 	 // @lengthOf(
+	] stringy  `it's`  , @leftPad	('\x00'
 
-calculatedFrom // c
-	{
-    msg_type{  T@calculatedFrom( 
-""\n""
+    ) 
+rootA @lengthOf(
+i64_  )
+,  }  MetaData falsey
+{ Packet repeatCount
+`tab	here`
+, } MetaData
 
-), float64
+string_
+{ float64
+    roots `line1
+line2`,
+	char  As	//
+  `
+`	,	zchar[ 65535
+	]falsey
+`a\`
+	, A 
+T
+	, _x  metadata
 
-i8i8
-    , As `
-`
-	,u32 
-rootA@lengthOf( 
-// c
+    , }	packet
+_x 	 // packet A { u8 x, }
+{ zchar[
 
-// `tick` ""quote"" 'q'
-	float )
-,  },
-    }packet 
+255	]
+string_
 
-    // " ++ [27880; 37322]%N ++ runes_of_ascii "
-	x_y_z	{ @tag(	//x
-  0
+    @lengthOf( 
+    //	t
+	// @lengthOf(
+	  u128
 
-)	i64_
-	    // " ++ [27880; 37322]%N ++ runes_of_ascii "
-  @lengthOf( 
-    //
+    )  `{ , }`  ,	}root packet	Packet {
+repeat 	 // " ++ [128512]%N ++ runes_of_ascii " emoji
+    lengthOf ,  }
 
-	MetaDataX
-	),
-}packet A { @calculatedFrom(""a\\""
-
-    )@calculatedFrom(
-""abc""
-) _x
-
-u
-
-`say ""hi""`
-,	}
-    options  
-      // `tick` ""quote"" 'q'
-  	{  // trailing space 
-  	metadata  =
-""a\\""  ;// a // b
-  	} ")).
-Eval vm_compute in ("<<<M1354>>>" ++ check (runes_of_ascii "options {
-    StringPrefixLenType = u8;
-    ArrayPrefixLenType = u32;
-    FixedStringPadFromLeft = true;
-    FixedStringPadChar = ' ';
-}
-packet Leg {
-}
-packet Heartbeat {
-    zchar[6] msgKind,
-    @rightPad('0') char[3] Qty,
-    zchar[9] Side2,
-    i8 Acct,
-}
-packet Logout {
-    int8 x,
-}
-packet Order {
-    char[] Acct,
-    zchar[8] count,
-    u32 OrderId,
-    uint8 lastPx,
-    u16 clOrdID,
-    zchar[7] Note,
-}
-root packet Reject {
-    @leftPad(' ') char[8] Side2,
-    i8 clOrdID,
-    repeat f32 x,
-    u32 lastPx,
-    match lastPx as Body {
-        [30, 147] : Heartbeat,
-        134 : Leg,
-        183 : Logout,
-        40 : Order,
-    },
-    u16 Ref @calculatedFrom(""CR\
-C32""),
-}
 ")).
-Eval vm_compute in ("<<<M1335>>>" ++ check (runes_of_ascii "
-options {
+Eval vm_compute in ("<<<M174>>>" ++ check (runes_of_ascii "
+root packet asx { leftPad
+    {u128 @calculatedFrom( ""1""
+) , //x
+}
+, lengthOf // packet A { u8 x, }
+@calculatedFrom( """ ++ [128512]%N ++ runes_of_ascii """ ) `a\`
+, i64 // `tick` ""quote"" 'q'
+Packet @lengthOf(  calculatedFrom ) , @calculatedFrom(
+""" ++ [233]%N ++ runes_of_ascii "t" ++ [233]%N ++ runes_of_ascii """ ) stringy	a1 `doc` // `tick` ""quote"" 'q'
+, @rightPad
+    (
+    // a // b
+    )
+    // c
+    a1
+    `a\`
+,  char
+Header @lengthOf(
+    x )`say ""hi""`, uint8x
+Z9_ `tab	here` ,  }
+options
+    {
+    calculatedFrom// packet A { u8 x, }
+= 0}	packet metadata {@leftPad ( '\x00'	) f32
+    pack
+//	t
+//
+, @tag( 65535 ) u32 uint8x @lengthOf( repeatCount) ``,MetaDataX	{ repeat options1 , match
+matchKey as len { """ ++ [128512]%N ++ runes_of_ascii """:
+    u8x	, 1 :
+zchar
+, /// triple
+[ ""a\\""
+    ,
+    ""x y"" ] : charz 0
+    :
+    x_y_z
+    //
+    ,[// trailing space 
+4294967296// `tick` ""quote"" 'q'
+]: asx  , [/// triple
+""a\""b"" , ""\n"" , ""\" ++ [233]%N ++ runes_of_ascii """ ,10 ] : _x ,
+    }	, uint8  metadata
+@lengthOf(float
+) ,
+zchar[
+    255] i8i8 , },
+    }root  packet
+f32a
+    { }")).
+Eval vm_compute in ("<<<M221>>>" ++ check (runes_of_ascii "packet u128
+{ @rightPad (
+' ' )
+i64_ { Logon ,char[ 4294967296
+    // @lengthOf(
+    ] MetaDataX@calculatedFrom( """ ++ [28040; 24687]%N ++ runes_of_ascii """ ) , } // " ++ [27880; 37322]%N ++ runes_of_ascii "
+,	rootA{ zchar[
+    // " ++ [128512]%N ++ runes_of_ascii " emoji
+    1 // a // b
+]rootA ,
+asx { rootA @calculatedFrom( ""abc""  ), repeat uint16 x_y_z
+,
+    // packet A { u8 x, }
+    zchar[
+42
+    ] stringy ,body , }, }, @leftPad
+( '\x00' ) char[ 3]Z9_ @lengthOf(  roots )
+    // trailing space 
+    `" ++ [233]%N ++ runes_of_ascii "`	, @lengthOf( charz	) @leftPad ( '0')@calculatedFrom(  ""a\""b"" )
+    zchar[//	t
+7 ]
+    // @lengthOf(
+    a1 @calculatedFrom( ""\" ++ [233]%N ++ runes_of_ascii """
+) //
+`// not a comment` ,
+@lengthOf( lengthOf ) repeat
+i16
+chars
+,int
+{
+    //	t
+    zchar[
+    1 ] calculatedFrom`line1
+line2`,Packet `" ++ [28040; 24687; 31867; 22411]%N ++ runes_of_ascii "` , } ,// " ++ [128512]%N ++ runes_of_ascii " emoji
+@rightPad ( '\x00'  )
+    zchar[255 // `tick` ""quote"" 'q'
+]
+    repeatCount @calculatedFrom(""\" ++ [233]%N ++ runes_of_ascii """ ) , repeat
+    char[] Pad
+`a\` ,  @lengthOf( pack )	i8 int , }")).
+Eval vm_compute in ("<<<M1607>>>" ++ check (runes_of_ascii "packet leftPad {
+    //
+    i8 stringy @calculatedFrom(""" ++ [128512]%N ++ runes_of_ascii """),
+    int @calculatedFrom(""a	b"") `it's`,
+    @leftPad()
+    @tag(0123456789)
+    int32 u8x,
+    @lengthOf(A)
+    float64 u128 @calculatedFrom(""a\\""),//x
+}
 
-LittleEndian = 
+options {
+    //x
+    Pad = 0
+    u = ' '
+}
+
+MetaData a1 {
+    char[] metadata `// not a comment`,
+}
+
+packet Foo {
+    @tag(42)
+    repeat BodyLength,
+    int8 metadata `{ , }`,
+    @leftPad()
+    @calculatedFrom(""`tick`"")
+    @calculatedFrom(""a	b"")
+    u32 stringy,
+    @lengthOf(roots)
+    zchar[0] msg_type @lengthOf(i64_) `tab	here`,
+    i8 Header `{ , }`,
+    char[7] trueish @lengthOf(packetx),
+    u64 charz `
+    `,
+    zchar[65535] repeatCount `it's`,
+    match calculatedFrom as calculatedFrom {
+        ""a	b"" : roots,
+        42 : MetaDataX,
+    },
+}")).
+Eval vm_compute in ("<<<M369>>>" ++ check (runes_of_ascii "root
+packet leftPad { @calculatedFrom( """ ++ [128512]%N ++ runes_of_ascii """) int64 len
+`{ , }` , } packet
+    u128
+    { zchar[ 65535 ] chars @calculatedFrom( ""\" ++ [233]%N ++ runes_of_ascii """
+    ), @lengthOf(  int
+// packet A { u8 x, }
+// @lengthOf(
+) i64_ , crc { match	Z9_ as Logon
+    {
+10 : int ,
+[ 0 ]
+: u8x ,
+// trailing space 
+//x
+42 :
+    trueish , [ ""\" ++ [233]%N ++ runes_of_ascii """ , 4294967296
+    ]
+:Z9_
+    ""\n""	: u128 ,	} ,
+    repeat string_ uint8x, i8i8 , match u as body
+{ 4294967296:
+// " ++ [27880; 37322]%N ++ runes_of_ascii "
+/// triple
+Z9_, 10
+:	Z9_,
+[ """ ++ [128512]%N ++ runes_of_ascii """
+    ,
+    ""x y"" ]
+: pack ,
+    } , }
+, @tag( // " ++ [128512]%N ++ runes_of_ascii " emoji
+0123456789 )
+    @lengthOf( calculatedFrom) @leftPad ( '\x00' // c
+) zchar[ 3 ]
+    T ,
+match A  as
+    leftPad{ [ """ ++ [28040; 24687]%N ++ runes_of_ascii """ ] :i64_""// no comment"" :
+    string_
+    ,
+} , } // trailing space ")).
+Eval vm_compute in ("<<<M1414>>>" ++ check (runes_of_ascii "packet stringy {
+    repeat T {
+        u64 lengthOf `tab	here`,
+        repeat _x {
+            match calculatedFrom as Header {
+                [""" ++ [233]%N ++ runes_of_ascii "t" ++ [233]%N ++ runes_of_ascii """] : _x,
+                // @lengthOf(
+                [""packet""] : MetaDataX,
+                255 : u128,
+                42 : A,
+                ""// no comment"" : body,
+            },
+            repeat crc Foo,
+            charz,
+        },
+        zchar[1] i8i8 @calculatedFrom(""x y""),
+        uint8x Pad `line1
+                line2`,
+    },
+    @lengthOf(u)
+    char[4294967296] crc,
+    @tag(007)
+    repeatCount,
+    repeat char[] Header,
+    @rightPad()
+    char[] string_ `a\`,
+}")).
+Eval vm_compute in ("<<<M1781>>>" ++ check (runes_of_ascii "
+options
+{
+    StringPrefixLenType	=
+u8 ;
+    ArrayPrefixLenType =
+
+    u8
+;
+	FixedStringPadFromLeft
+	=
 false
 
 ;
-ArrayPrefixLenType
+	FixedStringPadChar = ' ' ; }packet Ack {  char[]
+	tag7  , } packet	Reject
 
-= 
-u8
-    ; FixedStringPadFromLeft
-    =true;
-    FixedStringPadChar
+    {	InSym61
+{  repeat
+Ack
+	, zchar[
+	4
+]f1	, 
+},
+}  packet  Logout
 
-    = '0'  ; } packet
-Heartbeat
-    { string lastPx	,
-    uint8  Qty
+{char[ 
+4 ]
+    clOrdID ,  }
+	root
 
-    ,
-    i64
-Acct  , char[ 4] Ref ,
+    packet
+Cancel { 
+@leftPad
+(
 
-    }packet Fill{
-uint8
-Ref
-,
-Heartbeat
-,
-f32
-    OrderId 
-,
-	repeat f32 x
+    ' '
+    )
+    char[10
+	] price	,u8 x
+, u32
+venue @lengthOf(Body )
 
-,}
-	root packet	Order  {
-
-    zchar[
-2
-
-]
-OrderId ,zchar[ 2
-]
-Acct ,
-	zchar[
-1 ]
-
-Note
-    ,	zchar[
-9  ]	Qty
-    , string	price
-
-    , string
-    tag7 , u32
-
-    x  ,	match x
-as
-Body
-	{
-    123	:Fill
-    , 112
-:
-
-    Heartbeat
-,
-}
-,u32
-seqNo@calculatedFrom(  ""CRC32"" )	, } ")).
-Eval vm_compute in ("<<<M64>>>" ++ check (runes_of_ascii "
-MetaData //	t
-body { T
-    calculatedFrom, string f32a `line1
-line2`, leftPad BodyLength
-`tab	here` ,
-}options {
-}
-MetaData
-    options1	{
-char[ 3 ] MetaDataX
-// " ++ [128512]%N ++ runes_of_ascii " emoji
-/// triple
-`" ++ [28040; 24687; 31867; 22411]%N ++ runes_of_ascii "` ,  BodyLength x	`
-`,u16 tag	`say ""hi""`, u8
-float ,float32 As `
-`
-    ,
-    i8i8 Z9_ `
-`, } packet u { @tag( 42
-) options1 // c
-o `crlf
-line` ,@calculatedFrom( ""`tick`""
-// packet A { u8 x, }
-// a // b
-) repeat
-    char[]	a1
-    //x
-    ,	} options
-    { uint8x=
-true
-    A
-= // `tick` ""quote"" 'q'
-7 ; // packet A { u8 x, }
-len=	""" ++ [128512]%N ++ runes_of_ascii """
-    }")).
-Eval vm_compute in ("<<<M1237>>>" ++ check (runes_of_ascii "// top
-options // c0
-{ // c1
-zchar // c2
-= // c3
-true // c4
-; // c5
-Pad // c6
-= // c7
-char[ // c8
-00 // c9
-] // c10
-a1 // c11
-= // c12
-uint32 // c13
-BodyLength // c14
-= // c15
-true // c16
-; // c17
-} // c18
-root // c19
-packet // c20
-T // c21
-{ // c22
-@lengthOf( // c23
-repeatCount // c24
-) // c25
-@tag( // c26
-1 // c27
-) // c28
-@calculatedFrom( // c29
-""a	b"" // c30
-) // c31
-string // c32
-stringy // c33
-@calculatedFrom( // c34
-""\n"" // c35
-) // c36
-`u8 x,` // c37
-, // c38
-} // c39
-")).
-Eval vm_compute in ("<<<M1464>>>" ++ check (runes_of_ascii "// packet A { u8 x, }
-    MetaData roots{
-	char[
-
-    00 ] lengthOf
-
-    ``
-    ,
-    As
-
-stringy,
-
-    x
-calculatedFrom  ,
-} packet
-	i8i8
-
-{
-	crc	`crlf
-line`  , @rightPad 	 // a // b
-
-( 
-) zchar[ 42  ] falsey // trailing space 
-, 
-/// triple
-		@tag(
-	42  ) u32
-
-leftPad 
-, @tag( 42
-	)
-a1	@lengthOf( Z9_
-	)
     ,
 match
 
-    leftPad  as
+    x
+as
+	Body {[
 
-    crc	{
+    92 , 175
 
-    [
-""a\""b"" 
-,	1 
-, 
-255 ] : trueish
+]:	Logout, 26 :
+    Reject  ,
+144
 
-,	3  : float
-, 0
+    :
+	Ack ,
+} , u16
 
-:lengthOf
-,
-	},} ")).
-Eval vm_compute in ("<<<M1722>>>" ++ check (runes_of_ascii "// top
-options {
-    // c1
-    uint8x = 007;// c5
-    lengthOf = i8;// c9
-}// c10
-
-packet i64_ {
-    @calculatedFrom(""1"")
-    @tag(3)
-    @lengthOf(rootA)
-    // c22
-    repeat int8 Packet `u8 x,`,// c27
-}// c28
-
-root packet stringy {
-    @rightPad(' ')
-    // c36
-    repeat char[10] repeatCount,// c42
-    @tag(255)
-    // c45
-    float64 msg_type @calculatedFrom(""packet""),// c51
-}// c52")).
-Eval vm_compute in ("<<<M1265>>>" ++ check (runes_of_ascii "// top
-packet // c0
-B // c1
-{ // c2
-u8 // c3
-a , // c5a
-  // c5b
-} // c6
-root // c7
-packet P // c9a
-  // c9b
-{ // c10a
-  // c10b
-u8 // c11
-K , // c13a
-  // c13b
-match K // c15a
-  // c15b
-as // c16a
-  // c16b
-Body { // c18
-1 :
-    // c20
-B , }
-    // c23
-, // c24a
-  // c24b
-u16 // c25a
-  // c25b
-L // c26
-@lengthOf( Body
-    // c28
-)
-    // c29
-,
-    // c30
-} ")).
-Eval vm_compute in ("<<<M1888>>>" ++ check (runes_of_ascii "  packet
-
-body// @lengthOf(
-		{ @lengthOf(	T
-// " ++ [27880; 37322]%N ++ runes_of_ascii "
-
-) @lengthOf(
-
-int
-
-)  @leftPad
-(
-
-'\x00'
-)	asx //x
-	len
-	,
-    repeat
-    zchar[
-	3 ]
-
-    int	`" ++ [28040; 24687; 31867; 22411]%N ++ runes_of_ascii "`
-
-    , @lengthOf(  
-      // @lengthOf(
-  options1 )
-match x
-
-    as	//x
-    leftPad  // @lengthOf(
-  {
-7:
-    x_y_z
-,65535 
-: u128
-,42 
-: x ,
-    }  ,//
-}
-
-")).
-Eval vm_compute in ("<<<M1543>>>" ++ check (runes_of_ascii "root packet a1 {
-    tag Pad ``,
-}
-
-options {
-}
-
-root packet int {
-    uint64 f32a,
-}
-
-packet MetaDataX {
-    @leftPad(' ')
-    /// triple
-    repeat uint16 Header `{ , }`,
-}
-
-options {
-    Z9_ = false
-    falsey = ""x y"";
-    rootA = false
-    // a // b
-    Foo = true
-    lengthOf = float64
-}")).
-Eval vm_compute in ("<<<M1427>>>" ++ check (runes_of_ascii "packet P1 {
-    u8 a,
-}
-
-packet P2 {
-    P1,
-}
-
-packet P3 {
-    P2,
-    P1,
-}
-
-packet P4 {
-    repeat P3,
-    P2,
-}
-
-root packet P5 {
-    P4,
-    P3,
-    P1,
-    u8 K,
-    match K as Body {
-        4 : P4,
-        3 : P3,
-        2 : P2,
-        1 : P1,
-    },
-}")).
-Eval vm_compute in ("<<<M97>>>" ++ check (runes_of_ascii "packet
-i8i8 { repeat char[	00 ] Pad
-    `a\` ,
-@leftPad
-    (
-'\x00') string	a1@lengthOf(tag )``, float64
-    u128 @calculatedFrom( ""1""
-)  ,	@lengthOf( x
-    )
-    u128 @lengthOf( tag )
-`" ++ [28040; 24687; 31867; 22411]%N ++ runes_of_ascii "` , int64 u ,
-A//x
-T
-    `say ""hi""`
+    count
+    @calculatedFrom(
+""CR\
+C32"" 
+),	} ")).
+Eval vm_compute in ("<<<M45>>>" ++ check (runes_of_ascii "
+packet
+tag{ string matchKey `line1
+line2` , @tag( 0 )// c
+@calculatedFrom( ""1"" )@calculatedFrom( // " ++ [128512]%N ++ runes_of_ascii " emoji
+""a\""b"" ) float64 matchKey
+,}options
+{ crc
+    = true
+    msg_type
+    //	t
+    =
+true;
+} packet o { match  roots
+as calculatedFrom { ""// no comment""
+    // packet A { u8 x, }
+    :
+    msg_type	, ""{,}""
+    :u128, [
+    65535 , 0123456789
+]/// triple
+: body ,// " ++ [128512]%N ++ runes_of_ascii " emoji
+} ,@rightPad ( ' '	) repeat
+string_ i64_ ,
+@lengthOf(
+lengthOf )@tag( 255// packet A { u8 x, }
+)	@tag( 00 )
+char[]
+stringy
 , }
 ")).
-Eval vm_compute in ("<<<M10>>>" ++ check (runes_of_ascii "MetaData //	t
-x{
-    } packet rootA
-//x
-//	t
-{ i64	As
-//x
-// @lengthOf(
+Eval vm_compute in ("<<<M138>>>" ++ check (runes_of_ascii "packet Header{ char[	10
+] A`it's` , @calculatedFrom(	""" ++ [28040; 24687]%N ++ runes_of_ascii """)calculatedFrom // a // b
+@lengthOf( zchar ) `tab	here` ,  u32	BodyLength,
 @lengthOf(
-    A )
-`// not a comment` ,
+    stringy  ) //
+@rightPad (
+    ' ') @tag(
+0123456789 )
+body{ match i8i8 as
+Foo
+{ [ 7 ,	""CRC32"" ] : options1 ,[""a\""b"" , """ ++ [128512]%N ++ runes_of_ascii """ ,
+    ""it's""
+    , ""a	b"" ,
+""// no comment"" , ""it's"" , 7,""abc""  ] :
+As  ,
+1 :
+_x
+// " ++ [128512]%N ++ runes_of_ascii " emoji
+//
+} , repeat  uint8x{crc
+@calculatedFrom( ""a\\""
+), } ,
+    repeat  i8 tag ,// " ++ [128512]%N ++ runes_of_ascii " emoji
 }
-    options { asx =	string ; i8i8 =zchar[
-0123456789 ];	Foo =10 ; As =true
-; }
+, }
+
 ")).
-Eval vm_compute in ("<<<M191>>>" ++ check (runes_of_ascii "options
-{ Logon
-=char[	00
-]
+Eval vm_compute in ("<<<M1808>>>" ++ check (runes_of_ascii "options { LittleEndian
+	=false
 ;
-zchar
-    = false Logon =	i8
-    ;}options { asx = '0' int = ""\" ++ [233]%N ++ runes_of_ascii """  calculatedFrom= '\x00'// packet A { u8 x, }
-; // `tick` ""quote"" 'q'
+StringPrefixLenType
+=	u8
+;
+
+ArrayPrefixLenType
+=
+    u64
+
+    ;FixedStringPadFromLeft=
+
+    false
+
+    ; FixedStringPadChar =
+	' '
+; 
+} 
+packet	Reject	{
+
+repeat char[	4
+
+]
+
+seqNo 
+,
+string
+Px
+,
 }
-")).
-Eval vm_compute in ("<<<M1428>>>" ++ check (runes_of_ascii "
-packet uint8x
-{  match pack
+	root packet Trade { 
+@rightPad
+(
+'0' )
 
-    as msg_type {
-""`tick`""	:	float
-	}
+char[  2] 
+msgKind
+,
+repeat	f64 price 
+,
 
+    InAcct79
+{repeat  Reject ,	zchar[ 7 ]
+OrderId
     ,
 
-}  packet //	t
-	  a1 {
-    }options{ packetx= '\x00'
+}
+    , Reject
+,
 
-;	u128
-=""a	b""  ; }
+}
 ")).
-Eval vm_compute in ("<<<M1485>>>" ++ check (runes_of_ascii "packet A {
+Eval vm_compute in ("<<<M1800>>>" ++ check (runes_of_ascii "root
+
+    packet
+
+o
+{
+
+    }
+	MetaData	uint8x{
+    int64 rootA ,} MetaData As	{ 
+i32  // packet A { u8 x, }
+chars
+
+    ,
+}packet Z9_// trailing space 
+
+  {
+@leftPad
+
+(
+) 
+char[] x_y_z
+,
+    } packet tag {
+@leftPad 
+(
+    // " ++ [128512]%N ++ runes_of_ascii " emoji
+	// " ++ [27880; 37322]%N ++ runes_of_ascii "
+      ' '
+
+    ) zchar[
+    0  // `tick` ""quote"" 'q'
+		] 
+rootA 
+@calculatedFrom(
+	""a\\""
+)`tab	here`
+
+    ,}")).
+Eval vm_compute in ("<<<M109>>>" ++ check (runes_of_ascii "MetaData Header{ } packet crc {	match zchar as leftPad // `tick` ""quote"" 'q'
+{ 7 : As 0 : Packet , [
+00 // " ++ [128512]%N ++ runes_of_ascii " emoji
+]
+: Pad ,
+//x
+//x
+""// no comment""
+    :
+    calculatedFrom
+,	3
+    :
+string_ , } ,falsey  packetx `crlf
+line` , // " ++ [27880; 37322]%N ++ runes_of_ascii "
+@tag( 42 )repeat
+u64 packetx,
+@calculatedFrom(  ""1"" ) repeat u16 calculatedFrom, }
+")).
+Eval vm_compute in ("<<<M321>>>" ++ check (runes_of_ascii "
+options
+{ a1 = '\x00'
+As
+= ""{,}"" u8x
+=//x
+""a	b""
+    ; asx
+    = u64;
+o
+// @lengthOf(
+// c
+=0123456789 } packet Header
+{
+    //
+    @lengthOf(x // trailing space 
+)
+    // " ++ [27880; 37322]%N ++ runes_of_ascii "
+    repeat
+falsey { repeatCount
+    trueish
+`u8 x,` , } ,
+// `tick` ""quote"" 'q'
+// " ++ [128512]%N ++ runes_of_ascii " emoji
+zchar[
+65535 ] x
+    ,
+}")).
+Eval vm_compute in ("<<<M1905>>>" ++ check (runes_of_ascii "  options
+{
+
+    Z9_
+=  // trailing space 
+""packet""
+;  float 
+= 
+false  ;
+	A
+	=
+
+    ' ' 
+}
+        // c
+    MetaData pack
+    {
+zchar[  3
+    ]
+leftPad  , 
+zchar
+
+    falsey`it's` ,
+    char[]
+
+repeatCount	, char[  65535	// " ++ [128512]%N ++ runes_of_ascii " emoji
+	]	Z9_,	}
+	//	t
+")).
+Eval vm_compute in ("<<<M1247>>>" ++ check (runes_of_ascii "options { LittleEndian // c2a
+  // c2b
+= // c3
+true
+    // c4
+; } root
+    // c7
+packet P // c9a
+  // c9b
+{ repeat char // c12a
+  // c12b
+cs // c13a
+  // c13b
+, // c14a
+  // c14b
+u8
+    // c15
+x
+    // c16
+, // c17
+}
+    // c18
+")).
+Eval vm_compute in ("<<<M1877>>>" ++ check (runes_of_ascii "packet
+repeatCount
+
+{trueish
+, } packet uint8x
+{  /// triple
+	match	u8x
+    as  calculatedFrom	{
+
+[ 4294967296  ]
+    :	len,
+
+    [
+	""" ++ [128512]%N ++ runes_of_ascii """
+
+, """ ++ [233]%N ++ runes_of_ascii "t" ++ [233]%N ++ runes_of_ascii """ 
+,
+	255,  //
+      1  ] :falsey
+	,} 
+, }
+")).
+Eval vm_compute in ("<<<M44>>>" ++ check (runes_of_ascii "
+packet repeatCount
+    {
+trueish , } packet uint8x
+{/// triple
+match u8x as calculatedFrom
+    { [ 4294967296 ]: len ,
+[ """ ++ [128512]%N ++ runes_of_ascii """ ,	""" ++ [233]%N ++ runes_of_ascii "t" ++ [233]%N ++ runes_of_ascii """ , 255 , //
+1
+] : falsey , } , }
+")).
+Eval vm_compute in ("<<<M491>>>" ++ check (runes_of_ascii "packet uint8x
+{ match pack
+    as msg_type	{
+    0123456789 :	float
+}
+,
+} packet //	t
+a1
+    { } options {packetx packetx
+    = '\x00'	; u128= ""a	b""  ; }
+")).
+Eval vm_compute in ("<<<M1557>>>" ++ check (runes_of_ascii "MetaData leftPad
+
+    {
+	chars
+
+    MetaDataX 
+,}packet repeatCount{char[255
+
+] uint8x`" ++ [233]%N ++ runes_of_ascii "`
+	,
+    }
+
+    MetaData pack
+{	As
+
+    Foo
+, 
+}	// c
+ 
+")).
+Eval vm_compute in ("<<<M546>>>" ++ check (runes_of_ascii "packet uint8x
+{ match pack
+    as msg_type	{
+    0123456789 :	float
+}
+,
+} packet //	t
+a1
+    { } options {packetx
+    = '\x00'	; @ u128= ""a	b""  ; }
+")).
+Eval vm_compute in ("<<<M447>>>" ++ check (runes_of_ascii "packet uint8x
+{ match pack
+    as msg_type	{
+    0123456789 :	float
+,
+}
+} packet //	t
+a1
+    { } options {packetx
+    = '\x00'	; u128= ""a	b""  ; }
+")).
+Eval vm_compute in ("<<<M475>>>" ++ check (runes_of_ascii "packet uint8x
+{ match pack
+    as msg_type	{
+    0123456789 :	float
+}
+,
+} packet //	t
+a1
+    {  options {packetx
+    = '\x00'	; u128= ""a	b""  ; }
+")).
+Eval vm_compute in ("<<<M668>>>" ++ check (runes_of_ascii "// @len'1'gthOf(
+packet i8i8 { u128 o , }
+options { MetaDataX = true;
+    BodyLength =""packet"" x_y_z= 007
+crc //x
+= ""abc"" ;
+    msg_type =
+i16 }")).
+Eval vm_compute in ("<<<M1487>>>" ++ check (runes_of_ascii "// top
+packet Inner {
+    // c2
+    u8 a,
+}// c6
+
+root packet P {
+    // c10a
+    // c10b
+    repeat Inner items,// c14
+    u8 x,// c17a
+}// c18")).
+Eval vm_compute in ("<<<M709>>>" ++ check (runes_of_ascii "// @lengthOf(
+packet i8i8 { u128 o , }
+options { MetaDataX = true;
+    BodyLength =""packet"" x_y_z= 007
+crc //x
+= ""abc"" 
+    msg_type =
+i16 }")).
+Eval vm_compute in ("<<<M1751>>>" ++ check (runes_of_ascii "packet A {
     match k as n {
         [
-            ""a"", ""bb"", ""c c"", ""d"", ""e"",
-            ""f"", ""g"", ""h"", ""i"", ""j""
+            007, 66, ""a"", ""bb"", ""d"",
+            ""e"", ""g""
         ] : B,
         2 : C,
     },
 }")).
-Eval vm_compute in ("<<<M540>>>" ++ check (runes_of_ascii "packet uint8x
-{ match pack
-    as msg_type	{
-    0123456789 :	float
-}
-,
-} packet //	t
-a1
-    { } options " ++ [65279]%N ++ runes_of_ascii " {packetx
-    = '\x00'	; u128= ""a	b""  ; }
+Eval vm_compute in ("<<<M259>>>" ++ check (runes_of_ascii "  MetaData repeatCount // c
+{char[
+42 // " ++ [27880; 37322]%N ++ runes_of_ascii "
+]
+    // " ++ [128512]%N ++ runes_of_ascii " emoji
+    MetaDataX ,
+    // @lengthOf(
+    zchar[
+// " ++ [27880; 37322]%N ++ runes_of_ascii "
+//x
+0] asx , }
 ")).
-Eval vm_compute in ("<<<M428>>>" ++ check (runes_of_ascii "packet uint8x
-{ match pack
-    as msg_type	}
-    0123456789 :	float
-}
-,
-} packet //	t
-a1
-    { } options {packetx
-    = '\x00'	; u128= ""a	b""  ; }
-")).
-Eval vm_compute in ("<<<M455>>>" ++ check (runes_of_ascii "packet uint8x
-{ match pack
-    as msg_type	{
-    0123456789 :	float
-}
-,
- packet //	t
-a1
-    { } options {packetx
-    = '\x00'	; u128= ""a	b""  ; }
-")).
-Eval vm_compute in ("<<<M1642>>>" ++ check (runes_of_ascii "packet A {
-    Inner {
-        u8 x `tab
-                	x`,
-        Deep {
-            u8 y `tab
-                        	x`,
-        },
-    },
-}")).
-Eval vm_compute in ("<<<M500>>>" ++ check (runes_of_ascii "packet uint8x
-{ match pack
-    as msg_type	{
-    0123456789 :	float
-}
-,
-} packet //	t
-a1
-    { } options {packetx
-    = 	; u128= ""a	b""  ; }
-")).
-Eval vm_compute in ("<<<M137>>>" ++ check (runes_of_ascii "
-packet u128//x
-{ @calculatedFrom(  ""x y""
-    ) // `tick` ""quote"" 'q'
-@rightPad (  ' ') char[ 42 ]  Header
-    @calculatedFrom( ""abc"" ),  }
-
-")).
-Eval vm_compute in ("<<<M1263>>>" ++ check (runes_of_ascii "
-packet B {u8 
-a ,
-}  root	packet P
-{
-
-    u8
-K, 
-u64	L
-@lengthOf(
-
-Body
-)	, match
-    K
-as
-
-    Body
-{ 1
-
-    : 
-B
-
-,
-}	, }
-
-")).
-Eval vm_compute in ("<<<M144>>>" ++ check (runes_of_ascii "  MetaData falsey {o i8i8
-,char[]
-pack  ,
-float32 lengthOf , len //x
-BodyLength, BodyLength o
-, stringy  u128	`crlf
-line` , } 	 ")).
-Eval vm_compute in ("<<<M1394>>>" ++ check (runes_of_ascii "packet A {
-    u16 len @lengthOf(body) `
-        x`,
-    u32 crc @calculatedFrom(""CRC32"") `
-        x`,
-    string body,
-}")).
-Eval vm_compute in ("<<<M1154>>>" ++ check (runes_of_ascii "MetaData leftPad { chars MetaDataX ,
+Eval vm_compute in ("<<<M1190>>>" ++ check (runes_of_ascii "MetaData leftPad { chars MetaDataX , } packet repeatCount { char[ 255 ] uint8x `" ++ [233]%N ++ runes_of_ascii "` , } MetaData pack { As Foo , }
 // c
-} packet repeatCount { char[ 255 ] uint8x `" ++ [233]%N ++ runes_of_ascii "` , } MetaData pack { As Foo , }")).
-Eval vm_compute in ("<<<M1186>>>" ++ check (runes_of_ascii "MetaData leftPad { chars MetaDataX , } packet repeatCount { char[ 255 ] uint8x `" ++ [233]%N ++ runes_of_ascii "` , } MetaData pack { As Foo
+")).
+Eval vm_compute in ("<<<M1170>>>" ++ check (runes_of_ascii "MetaData leftPad { chars MetaDataX , } packet repeatCount { char[ 255 ] uint8x
 // c
-, }")).
-Eval vm_compute in ("<<<M290>>>" ++ check (runes_of_ascii "options {
-    /// triple
-    asx // " ++ [27880; 37322]%N ++ runes_of_ascii "
-= 3 } MetaData T
-{  f32/// triple
-Pad `u8 x,` , } // `tick` ""quote"" 'q'")).
-Eval vm_compute in ("<<<M535>>>" ++ check (runes_of_ascii "packet uint8x
-{ match pack
-    as msg_type	{
-    0123456789 :	float
-}
-,
-} packet //	t
-a1
-    { } opti")).
-Eval vm_compute in ("<<<M950>>>" ++ check (runes_of_ascii "packet A {
-    Inner {
-        u8 x `x
-`,
-        Deep {
-            u8 y `x
-`,
-        },
-    },
-}")).
-Eval vm_compute in ("<<<M199>>>" ++ check (runes_of_ascii "packet falsey { string a1 @lengthOf( packetx ) , }
-packet	int { Header	@lengthOf( stringy)
-, }")).
-Eval vm_compute in ("<<<M892>>>" ++ check (runes_of_ascii "packet A {
+`" ++ [233]%N ++ runes_of_ascii "` , } MetaData pack { As Foo , }")).
+Eval vm_compute in ("<<<M302>>>" ++ check (runes_of_ascii "packet string_{@lengthOf(	float ) // @lengthOf(
+BodyLength { match uint8x as i64_ { 0123456789
+: As
+    , } , } , }")).
+Eval vm_compute in ("<<<M910>>>" ++ check (runes_of_ascii "packet A {
   match k as n {
-    [1, 22, 007, 4, 5, 66, 7, 8, 9, 10, 11] : B
+    [""a"", 22, ""c c"", 4, ""e"", 66, ""g"", 8, ""i"", 10, ""k"", 12] : B,
     2 : C
   },
 }")).
-Eval vm_compute in ("<<<M644>>>" ++ check (runes_of_ascii "
+Eval vm_compute in ("<<<M898>>>" ++ check (runes_of_ascii "packet A {
+  match k as n {
+    [""a"", 22, ""c c"", 4, ""e"", 66, ""g"", 8, ""i"", 10, ""k""] : B
+    2 : C
+  },
+}")).
+Eval vm_compute in ("<<<M1558>>>" ++ check (runes_of_ascii "MetaData chars {
+    x_y_z x `line1
+    line2`,
+    _x A `// not a comment`,
+}// `tick` ""quote"" 'q'")).
+Eval vm_compute in ("<<<M573>>>" ++ check (runes_of_ascii "
 packet
-    asx {match u128 as lengthOf
-{
-//	t
-// `tick` ""quote"" 'q'
-255 : x" ++ [178]%N ++ runes_of_ascii " ,
-    } ,	}")).
-Eval vm_compute in ("<<<M617>>>" ++ check (runes_of_ascii "
-packet
-    asx {match u128 as lengthOf
+    asx {match u128 u128 as lengthOf
 {
 //	t
 // `tick` ""quote"" 'q'
 255 : x ,
-    } 	}")).
-Eval vm_compute in ("<<<M865>>>" ++ check (runes_of_ascii "packet A {
+    } ,	}")).
+Eval vm_compute in ("<<<M474>>>" ++ check (runes_of_ascii "packet uint8x
+{ match pack
+    as msg_type	{
+    0123456789 :	float
+}
+,
+} packet //	t
+a1")).
+Eval vm_compute in ("<<<M281>>>" ++ check (runes_of_ascii "
+packet
+    o	{  }
+packet
+Pad {
+BodyLength // trailing space 
+, } packet metadata //x
+{}")).
+Eval vm_compute in ("<<<M857>>>" ++ check (runes_of_ascii "packet A {
   match k as n {
-    [1, 22, 007, 4, 5, 66, 7, 8, 9] : B,
+    [1, ""bb"", 007, ""d"", 5, ""f"", 7, ""h""] : B
     2 : C
   },
 }")).
-Eval vm_compute in ("<<<M690>>>" ++ check (runes_of_ascii "// @lengthOf(
-packet i8i8 { u128 o , }
-options { MetaDataX = true;
-    BodyLength")).
-Eval vm_compute in ("<<<M1903>>>" ++ check (runes_of_ascii "
-root packet
-    P	{
-
-    u16 a
-
-, 
-u32  Sum@calculatedFrom( ""CRC32"" ) ,	}
-")).
-Eval vm_compute in ("<<<M821>>>" ++ check (runes_of_ascii "packet A {
-  match k as n {
-    [1, 22, ""c c"", 4, 5] : B,
-    2 : C
-  },
-}")).
-Eval vm_compute in ("<<<M1922>>>" ++ check (runes_of_ascii "packet A {
-    match k as n {
-        // b
-        1 : B,
-    },// h
-}")).
-Eval vm_compute in ("<<<M1707>>>" ++ check (runes_of_ascii "MetaData repeatCount {
-    char[42] MetaDataX,
-    zchar[0] asx,
-}")).
-Eval vm_compute in ("<<<M151>>>" ++ check (runes_of_ascii "packet
-    stringy
-{ } MetaData crc
-/// triple
-//x
-{ u16 o ,}")).
-Eval vm_compute in ("<<<M1711>>>" ++ check (runes_of_ascii "root packet string_ {
-    char[] matchKey,
+Eval vm_compute in ("<<<M1492>>>" ++ check (runes_of_ascii "options {
+    LittleEndian = true;
 }
 
-packet x {
-}")).
-Eval vm_compute in ("<<<M159>>>" ++ check (runes_of_ascii "root packet x  { roots @calculatedFrom(""a\""b"" ) , }")).
-Eval vm_compute in ("<<<M1501>>>" ++ check (runes_of_ascii "  options 
-{  a
-	=
-1 	 // c
-b=2
-
-;  // d
-    }
-")).
-Eval vm_compute in ("<<<M1221>>>" ++ check (runes_of_ascii "// top
-packet // c0
-x // c1
-{ // c2
-} // c3
-")).
-Eval vm_compute in ("<<<M1487>>>" ++ check (runes_of_ascii "root packet P {
-    char c,
+root packet P {
+    repeat char cs,
     u8 x,
 }")).
-Eval vm_compute in ("<<<M1386>>>" ++ check (runes_of_ascii "
-
-  root  packet
-falsey
-    { }
-")).
-Eval vm_compute in ("<<<M988>>>" ++ check (runes_of_ascii "packet A {
- u8 x `d" ++ [160]%N ++ runes_of_ascii "`, // c" ++ [160]%N ++ runes_of_ascii "
+Eval vm_compute in ("<<<M816>>>" ++ check (runes_of_ascii "packet A {
+  match k as n {
+    [""a"", ""bb"", ""c c"", ""d"", ""e""] : B
+    2 : C
+  },
 }")).
-Eval vm_compute in ("<<<M1410>>>" ++ check (runes_of_ascii "  packet int{  } 
-
-    //	t
-")).
-Eval vm_compute in ("<<<M1530>>>" ++ check (runes_of_ascii "
-packet A
-    {}// c" ++ [8232]%N ++ runes_of_ascii "
-")).
-Eval vm_compute in ("<<<M1624>>>" ++ check (runes_of_ascii "options {
-}// " ++ [128512]%N ++ runes_of_ascii " emoji")).
-Eval vm_compute in ("<<<M976>>>" ++ check (runes_of_ascii "packet A {
+Eval vm_compute in ("<<<M611>>>" ++ check (runes_of_ascii "
+packet
+    asx {match u128 as lengthOf
+{
+//	t
+// `tick` ""quote"" 'q'
+255 : x")).
+Eval vm_compute in ("<<<M459>>>" ++ check (runes_of_ascii "packet uint8x
+{ match pack
+    as msg_type	{
+    0123456789 :	float
 }
-// c ")).
-Eval vm_compute in ("<<<M1057>>>" ++ check (runes_of_ascii "// c" ++ [6158]%N ++ runes_of_ascii "
+,")).
+Eval vm_compute in ("<<<M877>>>" ++ check (runes_of_ascii "packet A { Inner { match k as n { [1,22,007,4,5,66,7,8,9] : B, }, }, }")).
+Eval vm_compute in ("<<<M780>>>" ++ check (runes_of_ascii "packet A {
+  match k as n {
+    [""a"", ""bb""] : B,
+    2 : C
+  },
+}")).
+Eval vm_compute in ("<<<M778>>>" ++ check (runes_of_ascii "packet A {
+  match k as n {
+    [1, 22] : B,
+    2 : C
+  },
+}")).
+Eval vm_compute in ("<<<M767>>>" ++ check (runes_of_ascii "@rightPad char[] string u16 @tag( @lengthOf( as packet ,")).
+Eval vm_compute in ("<<<M1204>>>" ++ check (runes_of_ascii "packet body {
+// c
+i32 f32a `{ , }` , } options { }")).
+Eval vm_compute in ("<<<M1610>>>" ++ check (runes_of_ascii "MetaData _x {
+    i64 u128,
+    Packet Header,
+}")).
+Eval vm_compute in ("<<<M1223>>>" ++ check (runes_of_ascii "// top
+packet // c0
+x { // c2
+}
+    // c3
+")).
+Eval vm_compute in ("<<<M1473>>>" ++ check (runes_of_ascii "packet A {
+    u8 x `a
+        b`,
+}")).
+Eval vm_compute in ("<<<M179>>>" ++ check (runes_of_ascii "// `tick` ""quote"" 'q'
+options {}")).
+Eval vm_compute in ("<<<M1013>>>" ++ check (runes_of_ascii "packet A {
+ u8 x `d" ++ [8232]%N ++ runes_of_ascii "`, // c" ++ [8232]%N ++ runes_of_ascii "
+}")).
+Eval vm_compute in ("<<<M1707>>>" ++ check (runes_of_ascii "
+
+  packet
+	A  {	} 
+	// c" ++ [6158]%N)).
+Eval vm_compute in ("<<<M1111>>>" ++ check (runes_of_ascii "MetaData tag { } // c
+")).
+Eval vm_compute in ("<<<M1136>>>" ++ check (runes_of_ascii "MetaData u { } // c
+")).
+Eval vm_compute in ("<<<M992>>>" ++ check (runes_of_ascii "// c" ++ [133]%N ++ runes_of_ascii "
 packet A {
 }")).
-Eval vm_compute in ("<<<M1226>>>" ++ check (runes_of_ascii "packet // c
-x { }")).
-Eval vm_compute in ("<<<M3>>>" ++ check (runes_of_ascii "options {}
-
+Eval vm_compute in ("<<<M1742>>>" ++ check (runes_of_ascii "// trailing space ")).
+Eval vm_compute in ("<<<M11>>>" ++ check (runes_of_ascii "packet zchar { }")).
+Eval vm_compute in ("<<<M241>>>" ++ check (runes_of_ascii "/// triple
 ")).
 Eval vm_compute in ("<<<M1045>>>" ++ check (runes_of_ascii "// c" ++ [8203]%N)).
